@@ -6,7 +6,7 @@ THEOREMS = ["SCP.C10." + t for t in """parse_len parse_days parse_months twelve_
 phrase_combine_2 phrase_combine_6 partsFrom_sum partsFrom_pos partsFrom_desc partsFrom_leading greedy_sum greedy_counts_pos
 greedy_descending greedy_zero greedy_leading as_floor patterns_at_least_two""".split()]
 RULE = ("counts {0,1,2, carry boundaries 59/60/61, 23/24/25, 6/7/8, 29/30/31, 364/365/366, 11/12/13, random up to 10^6} x all unit "
-        "spellings (en; tr in C19); sequences of 1-7 juxtaposed parts in random order with repetitions; + and -; 'as' each of the "
+        "spellings (en, and tr for juxtaposed parts); sequences of 1-7 juxtaposed parts in random order with repetitions; + and -; 'as' each of the "
         "five targets; oracle = integer spec; the printed text is parsed back into (count, word) parts: sum = |d|, greedy, "
         "strictly descending, singular iff count 1; non-trivial = >= 2 parts or a carry boundary; distinct = distinct lines")
 ASSUMPTIONS = ["counts <= 10^6 as the property says (the theorems have no bound)"]
@@ -42,7 +42,11 @@ def greedy(d):
     return parts
 
 
-def parse_out(out):
+TR = {"saniye": "second", "dakika": "minute", "saat": "hour", "gün": "day", "hafta": "week", "ay": "month", "yıl": "year"}
+TR_IN = {"second": ["saniye"], "minute": ["dakika"], "hour": ["saat"], "day": ["gün", "gun"], "week": ["hafta"], "month": ["ay"], "year": ["yıl", "yil"]}
+
+
+def parse_out(out, lang="en"):
     toks = out.split()
     if len(toks) % 2:
         return None
@@ -51,6 +55,11 @@ def parse_out(out):
         if not toks[i].isdigit():
             return None
         w = toks[i + 1]
+        if lang == "tr":
+            if w not in TR:
+                return None
+            parts.append((int(toks[i]), TR[w], w))
+            continue
         base = w[:-1] if w.endswith("s") else w
         if base not in LEN:
             return None
@@ -79,12 +88,18 @@ def run(ctx, model_ok):
             text = f"{text} {rng.choice(['as', 'to', 'in', 'into'])} {word(rng, tgt, 2)}"
             total = (abs(total) // LEN[tgt]) * LEN[tgt]
             kind = "as"
-        cases.append({"text": text, "secs": total, "kind": kind, "nparts": nparts})
-    res = C.run_impl([{"op": "exec", "lang": "en", "text": c["text"]} for c in cases])
+        lang = "en"
+        if kind == "seq" and rng.random() < 0.25:
+            # the same in Turkish (the language has no plural forms and no conversion word)
+            lang = "tr"
+            text = " ".join(f"{n} {rng.choice(TR_IN[u])}" for n, u in parts)
+        cases.append({"text": text, "secs": total, "kind": kind, "nparts": nparts, "lang": lang})
+    res = C.run_impl([{"op": "exec", "lang": c["lang"], "text": c["text"]} for c in cases])
     for c, r in zip(cases, res):
         l = r.get("lines", [None])[0] if "lines" in r else None
-        ops = [{"op": "exec", "lang": "en", "text": c["text"]}]
+        ops = [{"op": "exec", "lang": c["lang"], "text": c["text"]}]
         ctx.seen(c["text"], c["nparts"] >= 2 or c["kind"] != "seq")
+        ctx.count("lang:" + c["lang"])
         ctx.count("kind:" + c["kind"])
         ctx.count("parts:" + str(c["nparts"]))
         v = l.get("ok") if l and "ok" in l else None
@@ -95,7 +110,7 @@ def run(ctx, model_ok):
         if v["secs"] != c["secs"]:
             bad = f"duration {v['secs']} s, the unit lengths give {c['secs']} s"
         else:
-            parts = parse_out(l["out"])
+            parts = parse_out(l["out"], c["lang"])
             d = abs(c["secs"])
             if parts is None:
                 bad = f"output {l['out']!r} is not a list of (count, unit word)"
@@ -108,7 +123,7 @@ def run(ctx, model_ok):
                     bad = f"printed parts {l['out']!r} are not the greedy decomposition {want}"
                 else:
                     for n, u, w in parts:
-                        if (n == 1) != (w == u):
+                        if c["lang"] == "en" and (n == 1) != (w == u):
                             bad = f"wrong singular/plural word in {l['out']!r}"
         if bad:
             ctx.oracle_fail({"class": "duration:" + c["kind"], "what": bad, "ops": ops, "impl": [v, l.get("out")], "spec": c["secs"]})
@@ -116,7 +131,7 @@ def run(ctx, model_ok):
             ctx.sample({"text": c["text"], "secs": v["secs"], "printed": l["out"]})
     if model_ok:
         co = wire.Corr(ctx, compare=("kind", "value", "out", "calc"))
-        co.run([{"lang": "en", "text": c["text"]} for c in cases[:ctx.n(1500, 20000)]])
+        co.run([{"lang": c["lang"], "text": c["text"]} for c in cases[:ctx.n(1500, 20000)]])
         ctx.dist.update({"corr:" + k: v for k, v in co.stats.items()})
 
 
